@@ -134,7 +134,7 @@ fn judge(run: &Run, c: &Case) -> CaseResult {
 /// All string constants of `validation_codes` in the SDK source (so new codes are picked up).
 fn sdk_codes() -> Vec<String> {
     let mut out = vec![];
-    if let Ok(src) = std::fs::read_to_string("/repo/sdk/src/validation_results.rs") {
+    if let Ok(src) = std::fs::read_to_string(format!("{}/sdk/src/validation_results.rs", vh::sdk::repo_dir())) {
         if let Some(i) = src.find("pub mod validation_codes") {
             for line in src[i..].lines() {
                 let l = line.trim();
